@@ -164,6 +164,14 @@ func genCert(r *mrand.Rand) ([]byte, certCase, error) {
 		t.ExtraExtensions = append(t.ExtraExtensions, pkix.Extension{Id: oid(1, 3, 6, 1, 4, 1, 41482, 3, 7), Value: ser})
 		kinds = append(kinds, "yubico")
 	}
+	if r.Intn(24) == 0 {
+		// a large certificate: lengths that need three and four length octets
+		t.ExtraExtensions = append(t.ExtraExtensions, pkix.Extension{Id: oid(1, 3, 6, 1, 4, 1, 41482, 99, 1), Value: gen.Bytes(r, 60000+r.Intn(20000))})
+		if r.Intn(3) == 0 {
+			t.ExtraExtensions = append(t.ExtraExtensions, pkix.Extension{Id: oid(1, 3, 6, 1, 4, 1, 41482, 99, 2), Value: gen.Bytes(r, 1<<16+r.Intn(1<<18))})
+		}
+		kinds = append(kinds, "huge")
+	}
 	der, err := x509.CreateCertificate(rand.Reader, t, parent, sk.priv.Public(), ik.priv)
 	cc := certCase{Subject: sk.name, Issuer: ik.name, Alg: alg.String(), Exts: strings.Join(kinds, ",")}
 	return der, cc, err
